@@ -118,6 +118,21 @@ def judge(sessions, cmp=("value",), mode="used", maxsteps=60000, trace=False, ti
         ts = {"id": sid, "items": [{"perr": True} if (isinstance(it, dict) and it.get("perr")) else {"ast": it} for it in s["items"]],
               "stdin": [[c for c in l] for l in s.get("stdin", [])], "rec": rec, "cmp": list(s.get("cmp", cmp))}
         tlc_in.append(ts)
+        v.tlc_in = ts
+    for sid, (st, d) in judge_recorded(tlc_in, maxsteps, timeout, ck, part).items():
+        if st == "accept":
+            verdicts[sid].status, verdicts[sid].accept = "accept", d
+        else:
+            verdicts[sid].status, verdicts[sid].info = "diverge", d
+    for v in verdicts.values():
+        if v.status is None:
+            v.status, v.info = "lost", "TLC printed neither ACCEPT nor DIVERGE"
+    return [verdicts[s["id"]] for s in sessions]
+
+
+def judge_recorded(tlc_in, maxsteps=60000, timeout=3000, ck=None, part=None):
+    """CalcSem in trace mode on sessions that already carry their recorded observations: {id: (accept|diverge, payload)}"""
+    out = {}
     for b in range(0, len(tlc_in), BATCH):
         batch = tlc_in[b:b + BATCH]
         data = "\n".join(json.dumps(t) for t in batch) + "\n"
@@ -130,14 +145,11 @@ def judge(sessions, cmp=("value",), mode="used", maxsteps=60000, trace=False, ti
         for line in r.lines:
             if line.startswith("ACCEPT "):
                 d = json.loads(line[7:])
-                verdicts[d["id"]].status, verdicts[d["id"]].accept = "accept", d
+                out[d["id"]] = ("accept", d)
             elif line.startswith("DIVERGE "):
                 d = json.loads(line[8:])
-                verdicts[d["id"]].status, verdicts[d["id"]].info = "diverge", d
-    for v in verdicts.values():
-        if v.status is None:
-            v.status, v.info = "lost", "TLC printed neither ACCEPT nor DIVERGE"
-    return [verdicts[s["id"]] for s in sessions]
+                out[d["id"]] = ("diverge", d)
+    return out
 
 
 def spec_obs(sessions, maxsteps=60000, timeout=3000):
